@@ -352,7 +352,7 @@ func genTempl(t *rapid.T) TemplCase {
 				return &TProbe{Kind: "exec", Command: "check " + pbt.Pick(t, tmplPieces)}
 			}
 			pr := &TProbe{Kind: "http", Host: pbt.Pick(t, []string{"", "localhost", "h{{.PC_REPLICA_NUM}}.local"}),
-				Path: pbt.Pick(t, []string{"", "/health", "/r/{{.PC_REPLICA_NUM}}"}), Port: pbt.Pick(t, []string{"", "8080", "80{{.PC_REPLICA_NUM}}", "{{.G2}}00{{.PC_REPLICA_NUM}}", "0", "70000", "abc"})}
+				Path: pbt.Pick(t, []string{"", "/health", "/r/{{.PC_REPLICA_NUM}}"}), Port: pbt.Pick(t, []string{"", "8080", "80{{.PC_REPLICA_NUM}}", "{{.G2}}00{{.PC_REPLICA_NUM}}", "0", "65535", "65536", "70000", "abc"})}
 			if pr.Host == "" && pr.Path == "" && pr.Port == "" {
 				pr.Path = "/health" // an empty http_get block is no probe at all
 			}
